@@ -1237,7 +1237,7 @@ func (fr *Frame) streamEqObligations(st *State, a, b Val, pos token.Pos) {
 				teq = append(teq, "(= (select "+sget(f, arr, "ra")+" "+js+") (select "+sget(f, arr, "rb")+" "+js+"))")
 			}
 			nsa, nsb := "(select "+sget("S_s", sarr, "ra")+" "+js+")", "(select "+sget("S_s", sarr, "rb")+" "+js+")"
-			teq = append(teq, "(or (= "+nsa+" "+nsb+") "+vc.strEqExt(nsa, nsb)+")")
+			teq = append(teq, "(= "+nsa+" "+nsb+")") // nested text payloads: identical strings (keeps the function quantifier-free)
 			if sf := vc.prog.specFnIn("valeq", "value"); sf != nil {
 				ve := vc.declareSpecFn(sf)
 				nra, nrb := "(select "+sget("S_r", rarr, "ra")+" "+js+")", "(select "+sget("S_r", rarr, "rb")+" "+js+")"
@@ -1274,7 +1274,9 @@ func (fr *Frame) streamEqObligations(st *State, a, b Val, pos token.Pos) {
 		if nestedFn != "" {
 			rarr := "(Array " + isrt + " Int)"
 			ra, rb := "(select "+get(a, "tr", rarr)+" "+ks+")", "(select "+get(b, "tr", rarr)+" "+ks+")"
-			payloadEq = "(or " + payloadEq + " (" + nestedFn + " " + ra + " " + rb + "))"
+			kk := "(select " + get(a, "tk", "(Array "+isrt+" "+isrt+")") + " " + ks + ")"
+			isBytes := "(or (= " + kk + " " + vc.idx(10) + ") (= " + kk + " " + vc.idx(11) + ") (= " + kk + " " + vc.idx(12) + ") (= " + kk + " " + vc.idx(14) + "))"
+			payloadEq = "(or " + payloadEq + " (and " + isBytes + " (" + nestedFn + " " + ra + " " + rb + ")))"
 		}
 		eqs = append(eqs, payloadEq)
 		vc.oblige("assert", top.oblFn, fr.oblName("stream-eq-tok"), fr.curCond, "(=> "+vc.ilt(ks, n1)+" "+andAll(eqs...)+")", fr.pos(pos), fmt.Sprintf("re-encoded stream agrees at token %d", k))
